@@ -6,6 +6,7 @@ import Driver.Dist
 import Driver.Config
 import Driver.Api
 import Driver.Tiles
+import Driver.Crash
 open Std
 namespace Drv
 
@@ -49,6 +50,7 @@ def handle (st : St) (n : Nat) (line : String) : Result := Id.run do
   | "TP" :: _ => return handleTP st n toks
   | "TF" :: _ => return handleTF st n toks
   | "TL" :: _ => return handleTL st n toks
+  | "CR" :: _ => return handleCR st n toks
   | ["TREE", _, leaves] =>
     match parseList leaves with
     | some l => return { st := { st with treeLeaves := l }, out := [] }
